@@ -77,6 +77,8 @@ def gen_cases(rng, tier):
             cases.append({"kind": "decor", "how": how, "deco": deco, "calls": 3})
             if how in ("full", "disabling"):      # the same calls overlapping in time: a disabled cache must not merge them either
                 cases.append({"kind": "decor", "how": how, "deco": deco, "calls": 3, "conc": True})
+    for how in ["full", "get", "set", "none", "disabling", "late_full"]:      # the iterator decorator: every call runs the generator while reads (or everything) are disabled
+        cases.append({"kind": "decor", "how": how, "deco": "iterator", "calls": 3})
     for deco in ["cache", "early", "soft", "hit"]:      # ANOTHER backend (registered under a prefix the function's keys do not have) is disabled: nothing changes for this one
         cases.append({"kind": "decor", "how": "other_disabled", "deco": deco, "calls": 3})
     for how in ["full", "disabling"]:      # limiters and the breaker count nothing when the cache is disabled: every call runs, a failing function's own exception reaches the caller
@@ -281,18 +283,35 @@ def run_impl(case):
                         "hit": cache.hit(ttl=100, cache_hits=10), "failover": None,
                         "locked": cache.locked(ttl=10), "locked_nowait": cache.locked(ttl=10, wait=False),
                         "breaker": cache.circuit_breaker(errors_rate=50, period=10, ttl=10), "breaker_raise": cache.circuit_breaker(errors_rate=50, period=10, ttl=10),
-                        "rate": cache.rate_limit(limit=1, period=10), "slide": cache.slice_rate_limit(limit=1, period=10)}[case["deco"]]
+                        "rate": cache.rate_limit(limit=1, period=10), "slide": cache.slice_rate_limit(limit=1, period=10),
+                        "iterator": cache.iterator(ttl=100)}[case["deco"]]
                 if deco is None:
                     return {"execs": case["calls"], "skip": True}
 
-                @deco
-                async def f(x):
+                if case["deco"] == "iterator":
+                    @deco
+                    async def g(x):
+                        n["n"] += 1
+                        yield n["n"]
+                        yield -1
+
+                    async def f(x):      # consume the whole generator: a run that delivers nothing is a call that did not execute
+                        got = [it async for it in g(x)]
+                        if len(got) != 2:
+                            raise RuntimeError("incomplete run")
+                        return got[0]
+                else:
+                    f = None
+
+                async def f_plain(x):
                     n["n"] += 1
                     if case.get("conc"):
                         await asyncio.sleep(0); await asyncio.sleep(0)
                     if case["deco"] == "breaker_raise":
                         raise _Own()
                     return n["n"]
+                if f is None:
+                    f = deco(f_plain)
 
                 async def calls():
                     if case.get("conc"):
